@@ -77,6 +77,8 @@ Definition hook_step (h : hs) (e : event) : option hs :=
   | EvClaimFail p =>
     if in_setup h && negb (h_failed h) && is_spawned (sfind (h_claims h) p) then Some (with_claims h (sput (h_claims h) p CDone)) else None
   | EvDeliver p _ => if in_setup h && is_running (sfind (h_claims h) p) then Some h else None
+  | EvPomError _ _ =>     (* offset-manager errors are forwarded from the start of the session until the final flush is over *)
+    match h_stage h with SSetup | SCleanup | SAborted => Some h | _ => None end
   | EvClaimError p _ => if in_setup h && is_running (sfind (h_claims h) p) then Some h else None
   | EvClaimReturn p =>
     if in_setup h && is_running (sfind (h_claims h) p) then Some (with_claims h (sput (h_claims h) p CDone)) else None
